@@ -78,10 +78,12 @@ def build_input(ctx, case, db):
     # species and phases whose elements are all present
     have = set(els) | {"H", "O", "E"}
     sp, ph_ = [], []
+    unparsed = []
     for name, rx in db.species.items():
         try:
             es = set(db.composition(name))
         except ValueError:
+            unparsed.append(name)          # a species the reader cannot decompose may hold any element: the sum checks are then skipped for this case
             continue
         if name == "e-":
             es = set()
@@ -112,7 +114,8 @@ def build_input(ctx, case, db):
             progs.append(" %d PUNCH %s" % (ln[0], ", ".join(x for _, x in chunk)))
             heads.extend(h for h, _ in chunk)
             ln[0] += 10
-    punch([("TK", "TK"), ("kgw", 'TOT("water")'), ("MU", "MU"), ("CB", "CHARGE_BALANCE"), ("negLAH", '-LA("H+")'), ("negLAe", '-LA("e-")'), ("LAw", 'LA("H2O")')])
+    # iso.dat writes the proton as H3O+
+    punch([("TK", "TK"), ("kgw", 'TOT("water")'), ("MU", "MU"), ("CB", "CHARGE_BALANCE"), ("negLAH", '-LA("%s")' % ("H+" if "H+" in db.species or "H3O+" not in db.species else "H3O+")), ("negLAe", '-LA("e-")'), ("LAw", 'LA("H2O")')])
     punch([("TOT:%s" % e, 'TOT("%s")' % e) for e in els])
     for s in sp:
         punch([("LA:%s" % s, 'LA("%s")' % s), ("LM:%s" % s, 'LM("%s")' % s), ("LG:%s" % s, 'LG("%s")' % s)])
@@ -129,6 +132,7 @@ def build_input(ctx, case, db):
     mins = [p for p in ("Calcite", "Gypsum", "Quartz", "Barite", "Fluorite", "Halite", "Gibbsite") if p in ph_]
     if mins:
         text += "USE solution 1\nEQUILIBRIUM_PHASES 1\n %s 0 %s\nEND\n" % (r.choice(mins), gens.fmt(r.choice([0.0, 0.01])))
+    case["unparsed"] = unparsed
     return text, heads, els, sp, ph_
 
 
@@ -218,7 +222,7 @@ def run_case(ctx, case):
             m = g("LM:%s" % s_)
             if m is not None and m > -90 and s_ not in ("H2O", "e-"):
                 mol[s_] = 10.0 ** m
-        if kgw and len(sp) < 420:
+        if kgw and len(sp) < 420 and not case.get("unparsed"):
             for e in els:
                 tot = g("TOT:%s" % e)
                 if tot is None:
@@ -277,7 +281,7 @@ def run_case(ctx, case):
                 findings.append(("C01/saturation-index/%s" % case["db"], "row %d (T=%.2f K) of %s: SI(%s)=%.12f but log IAP - log K(T) from the database text = %.12f (%r)" % (
                     ri, tk, case["id"], p, si, want, rx.eq_text)))
                 break
-            if sr is not None and abs(sr - 10.0 ** si) > 1e-9 * max(abs(sr), 1e-300):
+            if sr is not None and abs(si) < 300 and abs(sr - 10.0 ** si) > 1e-9 * max(abs(sr), 1e-300):
                 findings.append(("C01/readout/sr", "row %d of %s: SR(%s)=%.12e vs 10^SI=%.12e" % (ri, case["id"], p, sr, 10.0 ** si)))
         if len(findings) >= 6:
             break
